@@ -119,3 +119,101 @@ def conc(m, v):
             return r.as_string()
         return str(r)
     return v
+
+
+# ---------------------------------------------------------------- environment models specific to mmmbbb
+def F_matches():
+    S = z3.StringSort()
+    return z3.Function('filter_matches', S, z3.ArraySort(S, z3.BoolSort()), z3.ArraySort(S, S), z3.BoolSort())
+
+
+def F_filter_valid():
+    return z3.Function('filter_valid', z3.StringSort(), z3.BoolSort())
+
+
+class ParsedFilter(Opaque):
+    def __init__(self, src):
+        Opaque.__init__(self, 'parsedfilter', src=src)
+
+
+def intr_parse_string(ex, args, name):
+    src = args[2]
+    ok = F_filter_valid()(zstr(src))
+    if ex.branch(ok):
+        return (ParsedFilter(src), None)
+    return (None, stdlib.mkerr('participle', 'filter parse error'))
+
+
+def intr_condition_evaluate(ex, args, name):
+    recv, attrs = args
+    if isinstance(recv, ParsedFilter):
+        if attrs is None:
+            attrs = SymMap(z3.K(z3.StringSort(), z3.BoolVal(False)), z3.K(z3.StringSort(), z3.StringVal('')), nil=True)
+        if isinstance(attrs, MapObj):
+            from .reldb import go_to_col, Col
+            _, attrs = go_to_col(ex, Col('Attributes', 'attributes', 'map', False, 'map[string]string', 0), attrs)
+        return (F_matches()(zstr(recv.src), attrs.has, attrs.val), None)
+    return ex.call_plain(name, args)
+
+
+MIN_DEFAULT = 10 * 10**9
+MAX_DEFAULT = 600 * 10**9
+
+
+def F_nominal():
+    return z3.Function('backoff_nominal', z3.IntSort(), z3.IntSort(), z3.IntSort(), z3.IntSort())
+
+
+def F_fuzz():
+    return z3.Function('backoff_fuzz', z3.IntSort(), z3.IntSort(), z3.IntSort())
+
+
+def eff_backoff(ex, sub):
+    """effective (min,max) backoff of an *ent.Subscription as NextDelayFor computes them"""
+    def eff(p, dflt):
+        if p is None:
+            return dflt
+        v = p.get()
+        e = Ite(v > 0, v, dflt) if is_sym(v) else (v if v > 0 else dflt)
+        if p.nilc is not None:
+            e = Ite(p.nilc, dflt, e)
+        return e
+    return eff(ex.getf(sub, 'MinBackoff'), MIN_DEFAULT), eff(ex.getf(sub, 'MaxBackoff'), MAX_DEFAULT)
+
+
+def intr_next_delay_contract(ex, args, name):
+    """contract of NextDelayFor used by the transition checks; the contract itself is what C04 (backoff-function
+    obligations) establishes on the real function: 0 <= nominal <= max'+2ns, 0 <= fuzz < 1s, deterministic"""
+    sub, attempts = args
+    ex.deref_check(sub, 'NextDelayFor')
+    mn, mx = eff_backoff(ex, sub)
+    nominal = F_nominal()(zint(mn), zint(mx), zint(attempts))
+    fuzz = F_fuzz()(zint(ex.getf(sub, 'ID')), zint(attempts))
+    ex.assume(z3.And(nominal >= 0, nominal <= zint(mx) + 2, fuzz >= 0, fuzz < 10**9))
+    ex.env.setdefault('backoffs', []).append((mn, mx, attempts, nominal, fuzz))
+    return (nominal, simp(nominal + fuzz))
+
+
+def setup(xp, backoff_contract=True):     # noqa: F811  (extends the earlier definition)
+    reldb.install(xp, xp.prog)
+    xp.patterns.insert(0, (__import__('re').compile(r'^\(\*github\.com/alecthomas/participle/v2\.Parser\[.*\]\)\.ParseString$'), intr_parse_string))
+    xp.intrinsics['(*go.6river.tech/mmmbbb/filter.Condition).Evaluate'] = intr_condition_evaluate
+    if backoff_contract:
+        xp.intrinsics[A + 'NextDelayFor'] = intr_next_delay_contract
+    xp.merge_funcs.add('(*go.6river.tech/mmmbbb/ent.Subscription).HasFullDeadLetterConfig')
+
+
+def action_results(ex, act):
+    """*results struct of an action (or None)"""
+    st = act.get() if isinstance(act, Ptr) else act
+    while True:
+        names = [f['name'] for f in ex.prog.under(st.t)['fields']]
+        if 'results' in names:
+            break
+        st = st.f[0]       # embedded action base (pruneAction / actionBase)
+    p = st.f[names.index('results')]
+    return p
+
+
+def opt_uuid_ptr(ex, present, v):
+    return ex.new_ptr(v) if present else None
